@@ -43,6 +43,10 @@ def run(P, R, L):
     R.once(_blind.enum1_tag_decoders, P, R, L)
     R.clause("GRD-37", "a block handle (footer / index entry) is compared with the file length before a buffer of its size is allocated: a damaged handle is an error, not an allocator abort")
     R.once(_blind.grd37_block_handle_within_the_file, P, R, L)
+    R.clause("ERR-5", "every From<io::Error> files the error under the IO variant")
+    R.once(_blind.err5_io_errors_keep_their_class, P, R, L)
+    R.clause("OWN-15", "`not in this file` is built only where a source was searched: a damaged or missing table is an error")
+    R.once(_blind.own15_who_may_say_not_found, P, R, L)
     R.clause("MAN-2", "the strict (manifest) reader treats a Middle / Last fragment without a start as damage instead of skipping it")
     R.once(_blind.man2_strict_reader_reports_orphan_fragments, P, R, L)
     R.not_decided += ["detection probability", "behaviour for a concrete flipped byte"]
